@@ -176,3 +176,7 @@ package req
 //@   before call:SetPrivate#1 assert p.p == pp && p.s == s
 //@
 // ---- end generated AddPipe contracts ----
+//@
+//@ func (*socket).OpenContext
+//@   ensures !cl ==> cast("*context", result0).reqID == 0 && cast("*context", result0).repMsg == nil && cast("*context", result0).reqMsg == nil && cast("*context", result0).sendMsg == nil
+//@   ensures !cl ==> !cast("*context", result0).queued && !cast("*context", result0).receiveWait && cast("*context", result0).lastPipe == nil
